@@ -321,6 +321,9 @@ impl Scenario for C07 {
         if run < 4 {
             return sweep_passwords(seed, run, tier);
         }
+        if run % 8 == 7 {
+            return super::soup::soup_plan("C07", seed, run, tier);
+        }
         let mut r0 = crate::prng::Rng::derive(seed, "c07-nodes", run);
         let (f, nodes) = family_nodes(&mut r0);
         let mut b = Builder::new("C07", seed, run, nodes.clone());
